@@ -16,13 +16,14 @@ COMMENT_WORDS = ["zn1", "zn2 plain", "zn3 it's", "zn4 \"q", "zn5 a ; b &", "zn6 
 
 class Layout:
     def __init__(self, seed=0, plain=False, docstyle="after", docmark="!", predocmark=">", docmark_alt="*",
-                 predocmark_alt="|", cont_p=0.25, comment_p=0.15, semi_p=0.1, max_width=None):
+                 predocmark_alt="|", cont_p=0.25, comment_p=0.15, semi_p=0.1, max_width=None, lit_break_p=0.0):
         self.rng = random.Random(seed)
         self.plain = plain
         self.docstyle = docstyle  # after | inline | pre | alt | prealt | mixed
         self.docmark, self.predocmark = docmark, predocmark
         self.docmark_alt, self.predocmark_alt = docmark_alt, predocmark_alt
         self.cont_p, self.comment_p, self.semi_p = cont_p, comment_p, semi_p
+        self.lit_break_p = lit_break_p
         self.features = set()
 
     def _cw(self):
@@ -113,6 +114,16 @@ class Layout:
         rng = self.rng
         if self.plain or rng.random() > self.cont_p * (1 + len(text) / 40):
             return [ind + text]
+        if self.lit_break_p and rng.random() < self.lit_break_p and not text.lstrip().lower().startswith("include"):
+            # break inside a character literal: `...'ab&` / `&cd'...` (the leading `&` is mandatory there and
+            # every character after it, blanks included, belongs to the literal)
+            marks, _ = lexer.scan(text)
+            inner = [i for idx, (i, c, lit) in enumerate(marks) if idx > 0 and lit and marks[idx - 1][2]
+                     and c not in "'\"" and marks[idx - 1][1] not in "'\""]
+            if inner:
+                k = rng.choice(inner)
+                self.features.add("break_inside_literal")
+                return [ind + text[:k] + "&", ind + " " * rng.choice([0, 2, 5]) + "&" + text[k:]]
         pts = lexer.break_points(text)
         if not pts:
             return [ind + text]
@@ -125,16 +136,25 @@ class Layout:
             last = p
         pieces.append(text[last:])
         lines = []
+        tight_prev = False
         for j, pc in enumerate(pieces):
             first = j == 0
             lastp = j == len(pieces) - 1
             cind = ind if first else ind + " " * rng.choice([2, 4, 6])
             body = pc.strip() if not first else pc.rstrip()
-            if not first and rng.random() < 0.4:
+            if tight_prev:
+                # the previous line ends `token&`: the blanks that separate the tokens stand after the leading `&`
+                body = "&" + rng.choice(["", " ", "   "]) + pc.rstrip()
+                self.features.add("tight_amp_blanks_after_leading_amp")
+            elif not first and rng.random() < 0.4:
                 body = "& " + body if rng.random() < 0.5 else "&" + body
                 self.features.add("leading_amp")
             line = cind + body
-            if not lastp:
+            tight_prev = False
+            if not lastp and pieces[j + 1][:1] == " " and rng.random() < 0.2:
+                line += "&"
+                tight_prev = True
+            elif not lastp:
                 line += rng.choice([" &", "  &", " & ! " + self._cw()])
                 if "!" in line.split("&")[-1]:
                     self.features.add("cont_trailing_comment")
